@@ -13,7 +13,7 @@ class Deadlock(Exception):
 
 
 class Scheduler:
-    def __init__(self, choices: List[int], timeout: float = 20.0):
+    def __init__(self, choices: list, timeout: float = 10.0):
         self.choices = list(choices)
         self.ci = 0
         self.cond = threading.Condition()
@@ -25,18 +25,43 @@ class Scheduler:
         self.local = threading.local()
         self.rr = 0
         self.failed = None
+        self.seg_thread, self.seg_left = None, 0
+        self.step, self.last_run = 0, {}
+        # replays saved before the segment form existed used a round-robin tail
+        self.legacy_tail = bool(self.choices) and all(isinstance(c, int) for c in self.choices)
 
     # -- called by the threads ------------------------------------------------------------
-    def _pick(self, me):
+    def _pick(self, me, must_leave=False):
+        """Next thread to run.  A choice is either an int (one step: thread = choice mod runnable) or
+        a pair [thread, n] (the chosen thread keeps the baton for n yield points); once the choices
+        are used up the running thread keeps the baton until it ends (non-preemptive tail), then
+        the lowest runnable one.  `must_leave` (a thread spinning on a held lock) forces a switch."""
         runnable = sorted(self.alive)
         if not runnable:
             return None
-        if self.ci < len(self.choices):
-            nxt = runnable[self.choices[self.ci] % len(runnable)]
+        nxt = None
+        if self.seg_left > 0 and self.seg_thread in runnable:
+            self.seg_left -= 1
+            nxt = self.seg_thread
+        elif self.ci < len(self.choices):
+            c = self.choices[self.ci]
             self.ci += 1
-        else:
+            if isinstance(c, (list, tuple)):
+                nxt = runnable[c[0] % len(runnable)]
+                self.seg_thread, self.seg_left = nxt, max(int(c[1]) - 1, 0)
+            else:
+                nxt = runnable[c % len(runnable)]
+        elif self.legacy_tail:
             self.rr += 1
             nxt = runnable[self.rr % len(runnable)]
+        else:
+            nxt = me if me in runnable else runnable[0]
+        if must_leave and nxt == me and len(runnable) > 1:
+            # fair: the other thread that has been off the baton for longest (the lock holder gets its turn)
+            self.seg_left = 0
+            nxt = min((t for t in runnable if t != me), key=lambda t: (self.last_run.get(t, -1), t))
+        self.step += 1
+        self.last_run[nxt] = self.step
         return nxt
 
     def yield_point(self, tag: str):
@@ -44,7 +69,7 @@ class Scheduler:
         if me is None:  # not one of the scheduled threads (harness itself)
             return
         with self.cond:
-            nxt = self._pick(me)
+            nxt = self._pick(me, must_leave=tag.endswith(".wait"))
             self.trace.append((me, tag, nxt))
             if nxt != me:
                 self.switches += 1
@@ -61,8 +86,12 @@ class Scheduler:
     def _body(self, idx: int, fn: Callable[[], Any], results: list):
         self.local.idx = idx
         try:
-            with self.cond:
-                self._wait_turn(idx)
+            try:
+                with self.cond:
+                    self._wait_turn(idx)
+            except Deadlock as e:
+                results[idx] = ("exc", e)
+                return
             try:
                 results[idx] = ("ok", fn())
             except BaseException as e:  # recorded, compared by the oracle
@@ -118,12 +147,22 @@ class YieldingLock:
     def __init__(self, real, sched: Scheduler, name="lock"):
         self.real, self.sched, self.name = real, sched, name
 
+    SPIN_LIMIT = 20000
+
     def acquire(self, blocking=True, timeout=-1):
+        spins = 0
         while not self.real.acquire(False):
             if not blocking:
                 return False
+            spins += 1
+            if spins > self.SPIN_LIMIT:  # every other thread had thousands of turns and none released it
+                self.sched.failed = Deadlock(f"{self.name} never released after {spins} scheduled turns of the other threads")
+                raise self.sched.failed
             self.sched.yield_point(self.name + ".wait")
         return True
+
+    def locked(self):
+        return self.real.locked() if hasattr(self.real, "locked") else None
 
     def release(self):
         self.real.release()
@@ -135,3 +174,27 @@ class YieldingLock:
 
     def __exit__(self, *exc):
         self.release()
+
+
+LOCK_TYPES = (type(threading.Lock()), type(threading.RLock()))
+
+
+class ThreadingShim:
+    """Stands for the `threading` module inside the library while a schedule runs: every lock the
+    library creates (at any time) is a YieldingLock, so a thread never blocks on a real lock while
+    it holds the baton."""
+
+    def __init__(self, sched: Scheduler):
+        self._sched = sched
+        self._n = 0
+
+    def __getattr__(self, name):
+        return getattr(threading, name)
+
+    def Lock(self):
+        self._n += 1
+        return YieldingLock(threading.Lock(), self._sched, "lock%d" % self._n)
+
+    def RLock(self):
+        self._n += 1
+        return YieldingLock(threading.RLock(), self._sched, "rlock%d" % self._n)
